@@ -75,4 +75,7 @@ ReadMerged(entityId, remote, reads, valid, files) ==
        /\ ops' = r /\ ncommitted' = Len(r)
   /\ valid /\ files
   /\ UNCHANGED <<eid, npacks, times>>
+(* an operation that does not validate, appended by hand (the editing API checks what it appends): Commit refuses, nothing is
+   written - what is committed passes validation wherever it is read *)
+CommitRefused == UNCHANGED vars
 =============================================================================
